@@ -4,6 +4,7 @@ CONSTANTS
   Vals <- Vals12
   MaxList = 2
   MaxEnt = 2
+  SrcMode = "small"
 INIT Init
 NEXT Next
 VIEW View
